@@ -1173,7 +1173,9 @@ func (env *Environment) setState(state string) {
 func (env *Environment) subscribeToWfState(taskman *task.Manager) {
 	go func() {
 		wf := env.Workflow()
-		notify := make(chan sm.State)
+		// buffered: ParentAdapter.updateState never blocks, so a state change that arrives while this
+		// goroutine is between two receives has to be queued, otherwise it is dropped for good
+		notify := make(chan sm.State, 1024)
 		subscriptionId := uuid.NewUUID().String()
 		env.wfAdapter.SubscribeToStateChange(subscriptionId, notify)
 		defer env.wfAdapter.UnsubscribeFromStateChange(subscriptionId)
